@@ -14,8 +14,8 @@ Engine E1.  Two parts.
     jitter with every phase, a change of the sampling interval at every position, gaps) the weight
     vector the implementation uses at every step is read off the impulse responses (unit impulse
     at every index) and compared with what the property allows at that step:
-        MUST_TRAP     stencil not available (it would reach outside the record) or it touches time
-                      steps that differ by more than 1.05 % -> trapezoid weights
+        MUST_TRAP     stencil not available (it would reach outside the record) or it touches two
+                      consecutive time steps that differ by more than 1.05 % -> trapezoid weights
         MUST_STENCIL  every time step within order+2 steps before and n+2 steps after is equal
                       (1e-9) -> the order/n stencil; with the default (4,1) the increments of
                       t^0..t^3 must then equal the exact integral
@@ -38,7 +38,8 @@ RULE = (
     "(b) full product config {(4,1) explicit and by default arguments,(2,1),(3,2),(4,2),(6,3)} x base dt {0.4,1} x "
     "length x grid family member (uniform; single jitter +0.5/+-1.1/+-2/+50 %/gap x10 at every step position; two deviations of different size (x10 gap / 50 % / 2 %) at every ordered pair of positions; equal "
     "jitter pairs 2/50 % at every position with distance 1..6; periodic jitter period 2,3,4 every phase; change of "
-    "dt by 2/50 % at every position; sub-threshold alternating) x signal {unit impulse at every index, t^0..t^5 x "
+    "dt by 2/50 % at every position; sub-threshold alternating; two deviations of different size; wobble = 2/3/5 "
+    "consecutive steps alternating -+0.6 % (each within 1 % of nominal, neighbours 1.2 % apart) at every position) x signal {unit impulse at every index, t^0..t^5 x "
     "start value {0,5,-2.5}, t^3+2*impulse(i), -3.5*t^2}.  One evaluation = one integrate() call.  A (config, grid) "
     "is non-trivial when at least one step is constrained to a rule (trapezoid or stencil) that differs from the "
     "other rule's weights; distinct = distinct (config, dt, length, grid)."
@@ -57,6 +58,7 @@ REQUIRED_CATEGORIES = [
     "stencil_pairs", "stencil_monomial_moments", "steps_must_trap_jitter", "steps_must_trap_ends",
     "steps_must_stencil", "steps_either", "steps_free", "cubic_exact_steps", "start_nonzero_calls",
     "superposition_checks", "grids_uniform", "grids_single", "grids_pair", "grids_periodic", "grids_change",
+    "grids_wobble", "steps_must_trap_wobble",
     "default_argument_calls",
 ]
 
@@ -216,6 +218,18 @@ def grid_specs(nt, tier):
                     continue
                 for amp1, amp2 in ((9.0, 0.02), (0.5, 0.02), (0.02, 9.0)):
                     specs.append({"family": "mixed", "pos": j1, "pos2": j2, "amp": amp1, "amp2": amp2})
+        # near-nominal wobble after a run of nominal steps: L consecutive steps alternate -0.6 % / +0.6 % (or
+        # +/-) around the nominal step.  Every step is within 1 % of the nominal one, but consecutive steps
+        # differ by 1.2 %, so a jitter test against anything but the neighbouring step misses it.
+        seen = set()
+        for j in pos:
+            for length in ((2, 5) if big else (2, 3, 5)):
+                length = min(length, nt - j)
+                if length < 2 or (j, length) in seen:
+                    continue
+                seen.add((j, length))
+                for sign in (-1, 1):
+                    specs.append({"family": "wobble", "pos": j, "length": length, "sign": sign, "amp": 0.006})
     return specs
 
 
@@ -237,6 +251,9 @@ def grid_factor(spec, nt):
     elif fam == "mixed":
         f[spec["pos"]] *= 1 + spec["amp"]
         f[spec["pos2"]] *= 1 + spec["amp2"]
+    elif fam == "wobble":
+        for i in range(spec["length"]):
+            f[spec["pos"] + i] *= 1 + spec["sign"] * (-1) ** i * spec["amp"]
     return f
 
 
@@ -270,7 +287,12 @@ def classify(t, order, n):
         a, b = min(lo + 1, ii), max(hi, ii)
         touched = dt[a:b + 1]
         spread = touched.max() / touched.min() - 1.0
-        if spread > 0.0105:
+        # jitter = change from one time step to the next, among the steps under the stencil, relative to the
+        # smaller of the two (so it exceeds 1 % whichever step it is referred to)
+        jit = 0.0
+        if len(touched) > 1:
+            jit = float(np.max(np.abs(np.diff(touched)) / np.minimum(touched[1:], touched[:-1])))
+        if jit > 0.0105:
             cls[ii] = MUST_TRAP_JIT
         elif spread > 1e-9:
             cls[ii] = FREE
@@ -393,6 +415,8 @@ def run_integrate(unit):
             for code, name in ((MUST_TRAP_END, "steps_must_trap_ends"), (MUST_TRAP_JIT, "steps_must_trap_jitter"),
                                (MUST_STENCIL, "steps_must_stencil"), (EITHER, "steps_either"), (FREE, "steps_free")):
                 c.cat(name, int(np.sum(cls[1:] == code)))
+            if fam == "wobble":
+                c.cat("steps_must_trap_wobble", int(np.sum(cls[1:] == MUST_TRAP_JIT)))
             steps = np.arange(nt)
             bad_trap = steps[((cls == MUST_TRAP_END) | (cls == MUST_TRAP_JIT)) & ~is_trap]
             bad_sten = steps[(cls == MUST_STENCIL) & ~is_sten]
